@@ -917,7 +917,7 @@ namespace plan
             const std::string sug = pl->params().getParam(nm)->getRangeSuggestion();
             if (sug.empty())
                 continue;
-            if (!s.chance(110))
+            if (!s.chance(160))
                 continue;
             std::string val;
             if (sug == "0,1")
